@@ -27,3 +27,6 @@ func SetRandSourceForVerif(src rand.Source64) func() {
 	localRand = rand.New(&lockedSource{src: src})
 	return func() { localRand = old }
 }
+
+// WildsafeForVerif reports whether a label may be crossed by a wildcard (dnsLabelWildsafe).
+func WildsafeForVerif(label []byte) bool { return dnsLabelWildsafe(label) }
